@@ -95,6 +95,35 @@ CHECKS = {
              "outcome is attributed to the single injected fault (the unfaulted model is first accepted by the real code).",
         technique="Lean 4 proof over translator-generated validation tables + fault-injection differential correspondence",
         design="§6 C20"),
+    "C16": dict(
+        text="Lean theorems on the hand-written model of coarsegrain.py (validity tests, aggregation / spreading subscripts and "
+             "statement inventory regenerated from the source): documented validity rules <-> accepted; volume, species totals, "
+             "environments, chemostat flags of every group; coarse edge <-> groups sharing a face, surface = shared faces x h^2, "
+             "distance^2 = centroid distance^2, no self-loops / duplicates; un-coarse-graining spreads evenly, preserves group "
+             "totals, zero on dropped cells; identity map = grid_to_graph (all proved for all inputs). Tie: translator "
+             "CoarsePy/IndexPy + correspondence (ops coarsegrain, cg_check, uncoarsegrain) + brute-force aggregation oracle on "
+             "the real code (face-sharing pairs, shared-face counts, centroid distances from cell coordinates), identity map "
+             "versus plain simulation on the three rebuilt engines.",
+        note="Lean kernel + {propext, Classical.choice, Quot.sound}; translator; cube / square roots compared to the exact model "
+             "within 1e-9 (distances squared); valid_iff assumes environment indices != -2 (the code's unset marker), cg_chem_any "
+             "assumes flags >= 0; identity map on the stochastic engines: identical for equal draws (same seed only when "
+             "nothing diffuses, the grid and graph engines enumerate neighbours in different orders).",
+        technique="Lean 4 proof over translator-generated formulas + differential correspondence",
+        design="§6 C16"),
+    "C17": dict(
+        text="Lean theorems: point accessor = flat index sample*nspecies*ncells + species*ncells + cell (generated formula); "
+             "per-sample state, per-cell trajectory, whole-state block and merged trajectory of the model (numpy C-order reshape as "
+             "stated model) read the same element / block / sum, with the data's units; species by label / index / object and "
+             "cells by index / coordinates resolve to the same entry; the three sample-index lookups (guards, loop tests and "
+             "returned indices regenerated from rdoutput.py) meet their declarative specs for every non-decreasing time list "
+             "and every query, repeated times included (None exactly when no such sample exists; ties to the earlier index; "
+             "first sample not before t), "
+             "and comparisons in any time unit are comparisons of SI values. Tie: translator IndexPy/TrajPy + correspondence "
+             "(op traj on directly constructed and simulated trajectories, grid and graph) + brute-force oracle on the real code.",
+        note="Lean kernel + {propext, Classical.choice, Quot.sound}; translator; numpy reshape/negative-index semantics are a "
+             "stated model.",
+        technique="Lean 4 proof over translator-generated formulas + differential correspondence",
+        design="§6 C17"),
 }
 
 ALL = ["C%02d" % i for i in range(1, 21)]
